@@ -226,12 +226,11 @@ def to_frac(x):
     raise TypeError(type(x))
 
 
-NUM = (int, float, complex, Fraction, np.number, bool, np.bool_)
+NUM = (int, float, complex, Fraction, np.number, bool, np.bool_)  # includes PyFloatSym / PyComplexSym (subclasses)
 
 
 class SymBool:
     __slots__ = ("e", "v")
-    __array_priority__ = 1000
 
     def __init__(s, e, v):
         s.e = e
@@ -289,6 +288,8 @@ def C(x):
     """coerce to Sym"""
     if isinstance(x, Sym):
         return x
+    if isinstance(x, PyNum):
+        return x.sym
     if isinstance(x, SymBool):
         return C(1) if bool(x) else C(0)
     if isinstance(x, (complex, np.complexfloating)):
@@ -307,7 +308,6 @@ def C(x):
 class Sym:
     """exact complex scalar re + i*im, each a Rat over the engine's variables"""
     __slots__ = ("re", "im", "zr", "zi")
-    __array_priority__ = 1000
 
     def __init__(s, re, im=R0, zr=None, zi=None):
         s.re = re
@@ -661,6 +661,132 @@ class Sym:
         if dt.kind == 'f':
             return a.real
         return a
+
+
+def _numlike(b):
+    return isinstance(b, (Sym, SymBool, np.ndarray) + NUM)
+
+
+def _pywrap(a, b, r):
+    """python number (op) python number is a python number again"""
+    if isinstance(b, (int, float, complex)) and not isinstance(b, np.generic):
+        cx = isinstance(a, complex) or isinstance(b, complex)
+        return PyComplexSym(r) if cx else PyFloatSym(r)
+    return r
+
+
+class PyNum:
+    """mixin: a *symbolic python number* — an instance of float / complex (so isinstance checks and
+    numbers.Number dispatch in the code under test behave as for a real python scalar) whose arithmetic is
+    delegated to the Sym it carries"""
+    __hash__ = None
+
+    def __add__(a, b):
+        if not _numlike(b):
+            return NotImplemented
+        return _pywrap(a, b, a.sym + b)
+
+    def __radd__(a, b):
+        if not _numlike(b):
+            return NotImplemented
+        return _pywrap(a, b, a.sym + b)
+
+    def __sub__(a, b):
+        if not _numlike(b):
+            return NotImplemented
+        return _pywrap(a, b, a.sym - b)
+
+    def __rsub__(a, b):
+        if not _numlike(b):
+            return NotImplemented
+        return _pywrap(a, b, b - a.sym)
+
+    def __mul__(a, b):
+        if not _numlike(b):
+            return NotImplemented
+        return _pywrap(a, b, a.sym * b)
+
+    def __rmul__(a, b):
+        if not _numlike(b):
+            return NotImplemented
+        return _pywrap(a, b, a.sym * b)
+
+    def __truediv__(a, b):
+        if not _numlike(b):
+            return NotImplemented
+        return _pywrap(a, b, a.sym / b)
+
+    def __rtruediv__(a, b):
+        if not _numlike(b):
+            return NotImplemented
+        return _pywrap(a, b, b / a.sym)
+
+    def __neg__(a):
+        return _pywrap(a, 0, -a.sym)
+
+    def __pos__(a):
+        return a.sym
+
+    def __abs__(a):
+        return abs(a.sym)
+
+    def __pow__(a, k):
+        return a.sym**k
+
+    def __eq__(a, b):
+        return a.sym == b
+
+    def __ne__(a, b):
+        return a.sym != b
+
+    def __lt__(a, b):
+        return a.sym < b
+
+    def __le__(a, b):
+        return a.sym <= b
+
+    def __gt__(a, b):
+        return a.sym > b
+
+    def __ge__(a, b):
+        return a.sym >= b
+
+    def __bool__(a):
+        return bool(a.sym)
+
+    def conjugate(a):
+        return a.sym.conjugate()
+
+    @property
+    def real(a):
+        return a.sym.real
+
+    @property
+    def imag(a):
+        return a.sym.imag
+
+    def __repr__(a):
+        return f"Py{a.sym!r}"
+
+
+class PyFloatSym(PyNum, float):
+    def __new__(cls, sym):
+        try:
+            o = float.__new__(cls, float(sym.v))
+        except Exception:
+            o = float.__new__(cls, 0.0)
+        o.sym = sym
+        return o
+
+
+class PyComplexSym(PyNum, complex):
+    def __new__(cls, sym):
+        try:
+            o = complex.__new__(cls, complex(sym.v))
+        except Exception:
+            o = complex.__new__(cls, 0j)
+        o.sym = sym
+        return o
 
 
 OPS = {
